@@ -63,6 +63,35 @@ def impl_model_part(rep, th):
         rep.inconclusive.append('ShareImpl_known.cfg was expected to violate Released, TLC reports %s' % r.violation)
 
 
+def inductive_part(rep):
+    """RefCountInd.tla: the design argument of the per-generation counter as an INDUCTIVE invariant, discharged by Apalache (base case, induction step,
+    invariant => OneLive /\\ Released), with a vacuity control and a negative control (the former single counter fails the step).  Model level only:
+    a failure here is reported as inconclusive, the verdict on the code comes from the traces."""
+    import subprocess
+    d = vlib.scratch('apa-')
+    res = {}
+    try:
+        shutil.copy(os.path.join(vlib.SPEC, 'RefCountInd.tla'), d)
+        runs = [('base', ['--init=Init', '--inv=IndInv', '--length=0'], True), ('step', ['--init=IndInit', '--inv=IndInv', '--length=1'], True),
+                ('safety', ['--init=IndInit', '--inv=Safety', '--length=0'], True), ('not-vacuous', ['--init=IndInit', '--inv=NotVacuous', '--length=0'], False),
+                ('former-single-counter', ['--init=IndInit', '--next=NextFormer', '--inv=IndInv', '--length=1'], False)]
+        for name, args, want_ok in runs:
+            try:
+                p = subprocess.run(['apalache-mc', 'check', '--cinit=CInit', '--out-dir=' + os.path.join(d, 'out')] + args + ['RefCountInd.tla'], cwd=d, capture_output=True, text=True, timeout=600)
+                out = p.stdout + p.stderr
+                ok = 'The outcome is: NoError' in out
+                err = 'The outcome is: Error' in out
+            except Exception as e:      # tool missing / timeout: nothing is concluded
+                ok = err = False
+                out = str(e)
+            res[name] = 'holds' if ok else 'violated' if err else 'no answer'
+            if (want_ok and not ok) or (not want_ok and not err):
+                rep.inconclusive.append('Apalache obligation %s of RefCountInd.tla: %s (expected %s)' % (name, res[name], 'holds' if want_ok else 'violated'))
+        rep.parts['apalache:RefCountInd'] = res
+    finally:
+        shutil.rmtree(d, ignore_errors=True)
+
+
 def impl_trace_part(rep, n, seeds, park):
     """Direction B for ShareImpl.tla: every recorded run of the real Share must be a behaviour of the lock-grain model (internal steps placed by TLC)."""
     d = vlib.scratch('shi-')
@@ -107,6 +136,7 @@ def main(argv):
     th = rep.tier == 'thorough'
     parts_subject.model_part(rep)
     impl_model_part(rep, th)
+    inductive_part(rep)
     parts_share.run_seq(rep, PID, th)
     impl_trace_part(rep, 3000 if th else 1200, [rep.seed * 100 + 20 + i for i in range(4 if th else 1)], park=False)
     impl_trace_part(rep, 80 if th else 40, [rep.seed * 100 + 30 + i for i in range(3 if th else 1)], park=True)
